@@ -184,6 +184,7 @@ partial def loop (h out : IO.FS.Stream) (wd : World) : IO Unit := do
   if line.isEmpty then return ()
   let (wd', o) := stepLine wd (line.trimAscii.toString)
   out.putStrLn o
+  out.flush      -- the harness keeps one driver process and talks to it after every operation
   loop h out wd'
 
 def main : IO Unit := do loop (← IO.getStdin) (← IO.getStdout) {}
